@@ -9,7 +9,8 @@ from .surface import sexp
 
 
 def n_cases(tier, quick, thorough):
-    return quick if tier == 'quick' else thorough
+    # quick is sized to finish in well under a minute on 16 cores; thorough is ~12x deeper
+    return int(quick * 2.5) if tier == 'quick' else thorough * 3
 
 
 # ------------------------------------------------------------------------------------------- C20
